@@ -334,6 +334,11 @@ func genPayGenericCase(t *rapid.T) *PayGenericCase {
 				call.Data = []byte{}
 			}
 		}
+		if c.Payloader == "av1" && !call.Nil && rapid.IntRange(0, 3).Draw(t, "av1edge") == 0 {
+			// OBU streams that put the free space of a packet on a LEB128 boundary (see C13)
+			ec := genAV1EdgeCase(t)
+			call.MTU, call.Data = ec.MTU, ec.input()
+		}
 		// bound the output to a few thousand fragments
 		if m := int(call.MTU); m < 8 && len(call.Data) > 600 {
 			call.Data = call.Data[:600]
